@@ -4,6 +4,37 @@ from .transform import *
 import math
 
 
+def _value_range(expr):
+    """Returns ``(minimum, unbounded)`` if the values that ``expr`` takes when its unconstrained axes range over
+    all positive integers are exactly the integers ``>= minimum`` (``unbounded=True``) or the single value ``minimum``
+    (``unbounded=False``), and ``None`` otherwise (e.g. ``b 3`` takes only multiples of 3)."""
+    if isinstance(expr, Axis):
+        return (expr.min_value, True) if expr.value is None else (expr.value, False)
+    elif isinstance(expr, (FlattenedAxis, Brackets)):
+        return _value_range(expr.inner)
+    elif isinstance(expr, (list, List, ConcatenatedAxis)):
+        ranges = [_value_range(c) for c in (expr if isinstance(expr, list) else expr.children)]
+        if any(r is None for r in ranges):
+            return None
+        unbounded = [minimum for minimum, unbounded in ranges if unbounded]
+        fixed = [minimum for minimum, unbounded in ranges if not unbounded]
+        if isinstance(expr, ConcatenatedAxis):
+            return (sum(unbounded) + sum(fixed), len(unbounded) > 0)
+        elif len(unbounded) == 0:
+            return (math.prod(fixed), False)
+        elif all(v == 1 for v in fixed) and sum(1 for v in unbounded if v > 1) <= 1:
+            return (max(unbounded), True)
+        else:
+            return None
+    else:
+        raise AssertionError()
+
+
+def _has_repeated_axis(exprlist):
+    names = [v.name for expr in exprlist for v in expr.nodes() if isinstance(v, Axis)]
+    return len(names) != len(set(names))
+
+
 def cse(expressions, cse_concat=True, cse_in_brackets=False, verbose=False):
     expressions = list(expressions)
     if any(expr is not None and not isinstance(expr, Expression) for expr in expressions):
@@ -98,6 +129,15 @@ def cse(expressions, cse_concat=True, cse_in_brackets=False, verbose=False):
 
     common_exprs = [common_expr for common_expr in common_exprs if not is_singleton(common_expr[0])]
 
+    # Keep only expressions that can be replaced with a single axis without changing the set of solutions: the
+    # expression must be able to take every value from some minimum upwards (or a single value), and no axis may
+    # appear twice in it
+    common_exprs = [
+        common_expr
+        for common_expr in common_exprs
+        if all(_value_range(exprlist) is not None and not _has_repeated_axis(exprlist) for exprlist in common_expr)
+    ]
+
     if verbose:
         print("CSE: Removed singletons")
         for v in common_exprs:
@@ -174,7 +214,16 @@ def cse(expressions, cse_concat=True, cse_in_brackets=False, verbose=False):
             for idx, common_expr in enumerate(common_exprs):
                 for exprlist in common_expr:
                     if len(exprlist) == 1 and id(expr) == id(exprlist[0]):
-                        return [Axis(f"cse.{idx}", expr.value, expr.ellipsis_indices, begin_pos=expr.begin_pos, end_pos=expr.end_pos)]
+                        return [
+                            Axis(
+                                f"cse.{idx}",
+                                expr.value,
+                                expr.ellipsis_indices,
+                                begin_pos=expr.begin_pos,
+                                end_pos=expr.end_pos,
+                                min_value=_value_range(expr)[0],
+                            )
+                        ]
 
         if isinstance(expr, list):
             result = []
@@ -200,7 +249,16 @@ def cse(expressions, cse_concat=True, cse_in_brackets=False, verbose=False):
                         value = None
                     else:
                         value = math.prod(values)
-                    result.append(Axis(f"cse.{idx}", value, exprlist[0].ellipsis_indices, begin_pos=exprlist[0].begin_pos, end_pos=exprlist[-1].end_pos))
+                    result.append(
+                        Axis(
+                            f"cse.{idx}",
+                            value,
+                            exprlist[0].ellipsis_indices,
+                            begin_pos=exprlist[0].begin_pos,
+                            end_pos=exprlist[-1].end_pos,
+                            min_value=_value_range(exprlist)[0],
+                        )
+                    )
                     i += len(exprlist)
                 else:
                     result.extend(replace(expr[i]))
